@@ -205,3 +205,42 @@ Proof. rewrite core_spec. assert (E : giles_optimal rmse 0 c T = 0) by (unfold g
   rewrite E. pose proof int_bound_big. destruct (Rltb 0 int_bound) eqn:R; [exact (Rceil_IZR 0)|apply Rltb_false in R; lra]. Qed.
 Lemma Rltb_intro x y : x < y -> Rltb x y = true.
 Proof. apply Rltb_true. Qed.
+
+(* ------------------------------------------------------------------ the quotients V_l / N_l are meaningful *)
+(* est_var divides by N_l; Coq's x / 0 = 0 would make a level with variance and NO sample contribute nothing.  Under the
+   hypotheses of the budget theorem that cannot happen: every level with variance gets at least one sample. *)
+Fixpoint pos_where_var (V N : list R) : Prop :=
+  match V, N with
+  | v :: V', n :: N' => (0 < v -> 1 <= n) /\ pos_where_var V' N'
+  | _, _ => True
+  end.
+
+Lemma alloc_with_pos rmse T : 0 < rmse -> 0 < T -> forall V C, length V = length C -> Forall (fun c => 0 < c) C ->
+  in_range rmse T V C -> pos_where_var V (alloc_with rmse T V C).
+Proof. intros Hr HT. induction V as [|v V IH]; intros [|c C] HL HC HR; simpl in HL; try discriminate; simpl; [exact I|].
+  inversion HC; subst. destruct HR as [Hb HR]. split; [|apply IH; auto].
+  intros Hv. unfold giles_optimal, cost_used in Hb. destruct (Reqb c 0) eqn:E; [apply Reqb_true in E; lra|].
+  rewrite core_pos_cost by assumption.
+  assert (Hx : 0 < sqrt (v / c) * T / var_share rmse).
+  { apply Rdiv_lt_0_compat; [|now apply var_share_pos]. apply Rmult_lt_0_compat; [|exact HT].
+    apply sqrt_lt_R0. now apply Rdiv_lt_0_compat. }
+  pose proof (Rceil_ub (sqrt (v / c) * T / var_share rmse)) as Hu.
+  unfold Rceil in *. assert (0 < IZR (Zceil (sqrt (v / c) * T / var_share rmse))) by lra.
+  apply lt_IZR in H. apply (IZR_le 1). lia. Qed.
+
+Lemma S_zero_no_variance V : Forall (fun v => 0 <= v) V -> forall C, S_of V C = 0 -> Forall (fun c => 0 < c) C ->
+  length V = length C -> Forall (fun v => v = 0) V.
+Proof. induction 1 as [|v V Hv HV IH]; intros [|c C] HS HC HL; simpl in HL; try discriminate; constructor.
+  - rewrite S_of_cons in HS. inversion HC; subst. pose proof (sqrt_pos (v * c)). pose proof (S_of_nonneg V C).
+    assert (Hz : sqrt (v * c) = 0) by lra. apply sqrt_eq_0 in Hz; [|apply Rmult_le_pos; lra].
+    apply Rmult_integral in Hz. destruct Hz; lra.
+  - rewrite S_of_cons in HS. inversion HC; subst. pose proof (sqrt_pos (v * c)). pose proof (S_of_nonneg V C).
+    apply (IH C); auto. lra. Qed.
+
+Theorem samples_where_variance rmse V C : 0 < rmse -> length V = length C ->
+  Forall (fun v => 0 <= v) V -> Forall (fun c => 0 < c) C -> in_range rmse (S_of V C) V C ->
+  pos_where_var V (giles_alloc rmse V C).
+Proof. intros Hr HL HV HC HR. unfold giles_alloc. destruct (Req_dec (S_of V C) 0) as [E|E].
+  - pose proof (S_zero_no_variance V HV C E HC HL) as HZ. clear - HZ.
+    generalize (alloc_with rmse (S_of V C) V C). induction HZ; intros [|n N]; simpl; auto. split; [intros; lra|apply IHHZ].
+  - pose proof (S_of_nonneg V C). apply alloc_with_pos; auto. lra. Qed.
